@@ -45,7 +45,36 @@ for i in ids:
 
 with cf.ThreadPoolExecutor(jobs) as ex:
     out = [r for rs in ex.map(lambda g: [one(i) for i in g], groups.values()) for r in rs]
+def write_table():
+    rows = []
+    for i in sorted(os.listdir(os.path.join(V, "refactors"))):
+        mp = os.path.join(V, "refactors", i, "meta.json")
+        if not os.path.exists(mp):
+            continue
+        m = json.load(open(mp))
+        det = m.get("detection", {})
+        rd = m.get("equiv_max_relative_difference", m.get("equiv_max_relative_difference_vs_largest_entry"))
+        kind = "bitwise identical" if rd in (None, 0, 0.0) and m.get("equiv_identical", True) else f"floating-point reordering (max rel. diff {rd})"
+        note = " (" + det["note"] + ")" if det.get("note") else ""
+        rows.append(f"| {i} | {', '.join(m.get('properties', []))} | {str(m.get('summary', ''))[:220].replace('|', '/')} | {kind} | {'; '.join(det.get('results', ['not run']))}{note} |")
+    with open(os.path.join(V, "docs", "REFACTORS.md"), "w") as fh:
+        fh.write("# Behaviour-preserving refactorings (no alarm expected)\n\n"
+                 "Rewrites of the code the properties are anchored in, written by fresh sub-agents that saw only the property texts and a scratch copy "
+                 "of the tree.  Round 1 (`A-`..`E-`): structural rewrites with byte-identical `equiv.py` digests on both trees (vectorised / "
+                 "un-vectorised loops, extracted helpers, table-driven dispatch, renamed privates, reordered independent statements).  Round 2 "
+                 "(`A2-`..`E2-`, written after the checks had been strengthened through six rounds of seeded changes): mostly rewrites that are "
+                 "mathematically equivalent but NOT bitwise identical (regrouped sums and products, einsum/tensordot/matmul interchanged, "
+                 "Fortran-ordered temporaries, blockwise integration), agreeing with the unchanged tree to 1e-13 of the natural scale.  Each keeps "
+                 "the unedited suite at its baseline.  `tools/refactor_matrix.py` applies each to a scratch copy of /repo and runs the quick check of "
+                 "every property it touches; the expected outcome is exit 0 everywhere.  One false alarm was found this way and corrected: `E2-r6` "
+                 "(the combined noise+sparsify operation no longer calls the public `sparsify`) made C20's correspondence disagree on the internal "
+                 "call trace and the number of fault points - the shape of the code, not its behaviour; C20 now compares observable outcomes per "
+                 "abstract phase only (docs/C20.md).\n\n"
+                 "| id | properties | what was rewritten | kind | checks |\n|---|---|---|---|---|\n" + "\n".join(rows) + "\n")
+
+
 bad = 0
+write_table()
 for i, res, alarm in sorted(out):
     print(i, "; ".join(res), "ALARM" if alarm else "")
     bad += alarm
